@@ -440,6 +440,343 @@ theorem core_run_congr (sch sch' : Sched) (ops : List Op) (s s' : Sender) (h : s
     | flush => exact core_flushS_congr sch sch' s s' h
     | needSpace n => exact core_reserve_congr sch sch' n s s' h
 
+/-! ## Physical buffer ring refines the value-level send half -/
+
+/-- Ownership invariant of the ring: the current buffer, the queued buffers
+and the free buffers are pairwise distinct and together are all `numBuffers`
+buffers; a queued slice covers exactly what was written into its buffer. -/
+structure RingInv (r : Ring) : Prop where
+  nodup : (r.cur :: (r.toW.map Prod.fst ++ r.fromW)).Nodup
+  count : 1 + r.toW.length + r.fromW.length = numBuffers
+  len_eq : ∀ p ∈ r.toW, p.2 = (getB r.mem p.1).size
+  bound : ∀ i ∈ r.cur :: (r.toW.map Prod.fst ++ r.fromW), i < r.mem.size
+
+theorem RingInv_init : RingInv Ring.init := by
+  constructor <;> simp [Ring.init, numBuffers]
+
+theorem getB_upd_self (m : Array ByteArray) (i : Nat) (v : ByteArray) (h : i < m.size) :
+    getB (upd m i v) i = v := by
+  simp [getB, upd, Array.getD_eq_getD_getElem?, h]
+
+theorem getB_upd_ne (m : Array ByteArray) (i j : Nat) (v : ByteArray) (h : j ≠ i) :
+    getB (upd m i v) j = getB m j := by
+  simp [getB, upd, Array.getD_eq_getD_getElem?, Ne.symm h]
+
+@[simp] theorem size_upd (m : Array ByteArray) (i : Nat) (v : ByteArray) : (upd m i v).size = m.size := by
+  simp [upd]
+
+
+/-! closed forms of `writerSteps` -/
+
+theorem Sender.writerSteps_closed (m : Nat) (s : Sender) :
+    s.writerSteps m = { s with queue := s.queue.drop m, wire := s.wire ++ s.queue.take m } := by
+  induction m generalizing s with
+  | zero => simp [Sender.writerSteps]
+  | succ m ih =>
+    rw [Sender.writerSteps, ih]
+    unfold Sender.writerStep
+    cases hq : s.queue with
+    | nil => simp [hq]
+    | cons h t => simp [List.append_assoc]
+
+def readSlice (mem : Array ByteArray) (p : Nat × Nat) : ByteArray := (getB mem p.1).extract 0 p.2
+
+theorem Ring.writerSteps_closed (m : Nat) (r : Ring) :
+    r.writerSteps m = { r with toW := r.toW.drop m,
+                               wire := r.wire ++ (r.toW.take m).map (readSlice r.mem),
+                               wids := r.wids ++ (r.toW.take m).map Prod.fst,
+                               fromW := r.fromW ++ (r.toW.take m).map Prod.fst } := by
+  induction m generalizing r with
+  | zero => simp [Ring.writerSteps]
+  | succ m ih =>
+    rw [Ring.writerSteps, ih]
+    unfold Ring.writerStep
+    cases hq : r.toW with
+    | nil => simp [hq]
+    | cons h t => simp [List.append_assoc, readSlice]
+
+theorem abs_writerSteps (m : Nat) (r : Ring) : (r.writerSteps m).abs = r.abs.writerSteps m := by
+  rw [Ring.writerSteps_closed, Sender.writerSteps_closed]
+  simp only [Ring.abs, List.map_drop, List.map_take]
+  rfl
+
+theorem RingInv_writerSteps (m : Nat) (r : Ring) (hi : RingInv r) : RingInv (r.writerSteps m) := by
+  rw [Ring.writerSteps_closed]
+  have htd := List.take_append_drop m r.toW
+  have hperm : (r.cur :: (r.toW.map Prod.fst ++ r.fromW)).Perm
+      (r.cur :: ((r.toW.drop m).map Prod.fst ++ (r.fromW ++ (r.toW.take m).map Prod.fst))) := by
+    rw [List.perm_iff_count]
+    intro a
+    have : List.count a (r.toW.map Prod.fst) =
+        List.count a ((r.toW.take m).map Prod.fst) + List.count a ((r.toW.drop m).map Prod.fst) := by
+      rw [← List.count_append, ← List.map_append, htd]
+    simp only [List.count_cons, List.count_append, this]
+    omega
+  constructor
+  · exact (List.Perm.nodup_iff hperm).mp hi.nodup
+  · simp only [List.length_append, List.length_map, List.length_drop, List.length_take]
+    have := hi.count
+    omega
+  · intro p hp
+    exact hi.len_eq p (List.mem_of_mem_drop hp)
+  · intro i hmem
+    exact hi.bound i ((List.Perm.mem_iff hperm).mpr hmem)
+
+theorem cur_not_queued (r : Ring) (hi : RingInv r) : ∀ p ∈ r.toW, p.1 ≠ r.cur := by
+  intro p hp heq
+  have := hi.nodup
+  rw [List.nodup_cons] at this
+  apply this.1
+  rw [List.mem_append]
+  left
+  rw [← heq]
+  exact List.mem_map_of_mem hp
+
+theorem put_sim (b : ByteArray) (r : Ring) (hi : RingInv r) :
+    RingInv (r.put b) ∧ (r.put b).abs = r.abs.put b := by
+  have hne := cur_not_queued r hi
+  have hcur : r.cur < r.mem.size := hi.bound r.cur (by simp)
+  constructor
+  · refine ⟨hi.nodup, hi.count, ?_, ?_⟩
+    · intro p hp
+      simp only [Ring.put]
+      rw [getB_upd_ne _ _ _ _ (hne p hp)]
+      exact hi.len_eq p hp
+    · intro i hmem
+      simp only [Ring.put, size_upd]
+      exact hi.bound i hmem
+  · simp only [Ring.abs, Ring.put, Sender.put]
+    rw [getB_upd_self _ _ _ hcur]
+    congr 1
+    apply List.map_congr_left
+    intro p hp
+    rw [getB_upd_ne _ _ _ _ (hne p hp)]
+
+theorem forced_eq (r : Ring) (hi : RingInv r) :
+    (if r.fromW.isEmpty then 1 else 0) = r.toW.length + 1 + 1 - numBuffers := by
+  have := hi.count
+  cases hf : r.fromW with
+  | nil => simp [hf, numBuffers] at this ⊢; omega
+  | cons a t => simp [hf, numBuffers] at this ⊢; omega
+
+theorem flush_sim (k : Nat) (r : Ring) (hi : RingInv r) :
+    RingInv (r.flush k) ∧ (r.flush k).abs = r.abs.flush k := by
+  unfold Ring.flush
+  by_cases h0 : (getB r.mem r.cur).size = 0
+  · simp only [h0, if_true]
+    refine ⟨hi, ?_⟩
+    unfold Sender.flush
+    simp [Ring.abs, h0]
+  · simp only [h0, if_false]
+    have hK := forced_eq r hi
+    generalize hKdef : max k (if r.fromW.isEmpty then 1 else 0) = K
+    have hK1 : r.fromW = [] → 1 ≤ K := by
+      intro hf; rw [← hKdef, hf]; simp; omega
+    generalize hT : r.toW ++ [(r.cur, (getB r.mem r.cur).size)] = T'
+    rw [Ring.writerSteps_closed]
+    -- ownership facts
+    have htd := List.take_append_drop K T'
+    have hids : T'.map Prod.fst = r.toW.map Prod.fst ++ [r.cur] := by rw [← hT]; simp
+    have hperm : (r.fromW ++ (T'.take K).map Prod.fst ++ (T'.drop K).map Prod.fst).Perm
+        (r.cur :: (r.toW.map Prod.fst ++ r.fromW)) := by
+      rw [List.perm_iff_count]
+      intro a
+      have : List.count a ((T'.take K).map Prod.fst) + List.count a ((T'.drop K).map Prod.fst)
+          = List.count a (r.toW.map Prod.fst) + List.count a [r.cur] := by
+        rw [← List.count_append, ← List.map_append, htd, hids, List.count_append]
+      simp only [List.count_cons, List.count_append, List.count_nil] at this ⊢
+      omega
+    have hnd := (List.Perm.nodup_iff hperm).mpr hi.nodup
+    cases hf : r.fromW ++ List.map Prod.fst (List.take K T') with
+    | nil =>
+      exfalso
+      have h1 : r.fromW = [] := (List.append_eq_nil_iff.mp hf).1
+      have h2 := (List.append_eq_nil_iff.mp hf).2
+      have hK1' := hK1 h1
+      have : T' ≠ [] := by rw [← hT]; simp
+      cases T' with
+      | nil => exact this rfl
+      | cons a t =>
+        have : K = (K - 1) + 1 := by omega
+        rw [this] at h2
+        simp at h2
+    | cons i t =>
+      simp only
+      rw [hf] at hnd hperm
+      have hi_notin : ∀ p ∈ T'.drop K, p.1 ≠ i := by
+        intro p hp heq
+        have h3 := (List.nodup_append.mp hnd).2.2 i (by simp) p.1 (List.mem_map_of_mem hp)
+        exact h3 heq.symm
+      have hlen : ∀ p ∈ T', p.2 = (getB r.mem p.1).size := by
+        intro p hp
+        rw [← hT] at hp
+        rcases List.mem_append.mp hp with hp | hp
+        · exact hi.len_eq p hp
+        · simp at hp; subst hp; rfl
+      constructor
+      · constructor
+        · simp only
+          apply (List.Perm.nodup_iff ?_).mp hnd
+          rw [List.perm_iff_count]
+          intro a
+          simp only [List.count_cons, List.count_append]
+          omega
+        · simp only [List.length_drop]
+          have hc := hi.count
+          have hl : (r.fromW ++ List.map Prod.fst (List.take K T')).length = t.length + 1 := by
+            rw [hf]; simp
+          have hT' : T'.length = r.toW.length + 1 := by rw [← hT]; simp
+          simp only [List.length_append, List.length_map, List.length_take] at hl
+          omega
+        · intro p hp
+          simp only at hp ⊢
+          rw [getB_upd_ne _ _ _ _ (hi_notin p hp)]
+          exact hlen p (List.mem_of_mem_drop hp)
+        · intro j hj
+          simp only [size_upd]
+          simp only at hj
+          apply hi.bound j
+          apply (List.Perm.mem_iff hperm).mp
+          rcases List.mem_cons.mp hj with hj | hj
+          · subst hj; simp
+          · rcases List.mem_append.mp hj with hj | hj
+            · simp only [List.cons_append, List.mem_cons, List.mem_append]; right; right; exact hj
+            · simp only [List.cons_append, List.mem_cons, List.mem_append]; right; left; exact hj
+      · unfold Sender.flush
+        have hsz : ¬ (r.abs.cur.size = 0) := by simpa [Ring.abs] using h0
+        simp only [hsz, if_false]
+        rw [Sender.writerSteps_closed]
+        have hQ : r.abs.queue ++ [r.abs.cur] = T'.map (readSlice r.mem) := by
+          rw [← hT]
+          simp [Ring.abs, readSlice, ByteArray.extract_zero_size]
+        have hKK : max k ((r.abs.queue ++ [r.abs.cur]).length + 1 - numBuffers) = K := by
+          rw [← hKdef, hK]; simp [Ring.abs]
+        have hKK2 : max k ((List.map (readSlice r.mem) T').length + 1 - numBuffers) = K := by
+          rw [← hQ]; exact hKK
+        simp only [hQ, hKK2]
+        have hib : i < r.mem.size := by
+          apply hi.bound i
+          apply (List.Perm.mem_iff hperm).mp
+          simp
+        simp only [Ring.abs, ← List.map_drop, ← List.map_take]
+        rw [getB_upd_self _ _ _ hib]
+        congr 1
+        apply List.map_congr_left
+        intro p hp
+        simp only [readSlice]
+        rw [getB_upd_ne _ _ _ _ (hi_notin p hp)]
+
+theorem flushS_sim (sch : Sched) (r : Ring) (hi : RingInv r) :
+    RingInv (r.flushS sch) ∧ (r.flushS sch).abs = r.abs.flushS sch :=
+  flush_sim (sch r.flushed) r hi
+
+theorem reserve_sim (sch : Sched) (n : Nat) (r : Ring) (hi : RingInv r) :
+    RingInv (r.reserve sch n) ∧ (r.reserve sch n).abs = r.abs.reserve sch n := by
+  unfold Ring.reserve Sender.reserve
+  have : r.abs.cur = getB r.mem r.cur := rfl
+  rw [this]
+  split
+  · exact flushS_sim sch r hi
+  · exact ⟨hi, rfl⟩
+
+theorem sendBE_sim (sch : Sched) (k n : Nat) (r : Ring) (hi : RingInv r) :
+    RingInv (r.sendBE sch k n) ∧ (r.sendBE sch k n).abs = (r.abs.reserve sch k).put (be k n) := by
+  obtain ⟨h1, h2⟩ := reserve_sim sch k r hi
+  obtain ⟨h3, h4⟩ := put_sim (be k n) _ h1
+  exact ⟨h3, by rw [← h2]; exact h4⟩
+
+theorem sendDataLoop_sim (sch : Sched) (val : ByteArray) (off : Nat) (r : Ring) (hi : RingInv r) :
+    RingInv (r.sendDataLoop sch val off) ∧
+    (r.sendDataLoop sch val off).abs = r.abs.sendDataLoop sch val off := by
+  fun_induction Ring.sendDataLoop sch val off r with
+  | case1 off r hlt r1 n hn =>
+    have h1 : RingInv r1 ∧ r1.abs = (if r.abs.cur.size ≥ writeBufSize then r.abs.flushS sch else r.abs) := by
+      simp only [r1]
+      have : r.abs.cur = getB r.mem r.cur := rfl
+      rw [this]
+      split
+      · exact flushS_sim sch r hi
+      · exact ⟨hi, rfl⟩
+    rw [Sender.sendDataLoop.eq_1 sch val off r.abs]
+    simp only [hlt, dite_true]
+    rw [← h1.2]
+    have : min (writeBufSize - r1.abs.cur.size) (val.size - off) = 0 := hn
+    simp only [this, dite_true]
+    exact ⟨h1.1, trivial⟩
+  | case2 off r hlt r1 n hn ih =>
+    have h1 : RingInv r1 ∧ r1.abs = (if r.abs.cur.size ≥ writeBufSize then r.abs.flushS sch else r.abs) := by
+      simp only [r1]
+      have : r.abs.cur = getB r.mem r.cur := rfl
+      rw [this]
+      split
+      · exact flushS_sim sch r hi
+      · exact ⟨hi, rfl⟩
+    obtain ⟨p1, p2⟩ := put_sim (val.extract off (off + n)) r1 h1.1
+    obtain ⟨i1, i2⟩ := ih p1
+    refine ⟨i1, ?_⟩
+    rw [Sender.sendDataLoop.eq_1 sch val off r.abs]
+    simp only [hlt, dite_true]
+    rw [← h1.2]
+    have hn' : min (writeBufSize - r1.abs.cur.size) (val.size - off) = n := rfl
+    simp only [hn', hn, dite_false]
+    rw [i2, p2]
+  | case3 off r hlt =>
+    rw [Sender.sendDataLoop.eq_1 sch val off r.abs]
+    simp only [hlt, dite_false]
+    exact ⟨hi, trivial⟩
+
+theorem sendVal_sim (sch : Sched) (v : Val) (r : Ring) (hi : RingInv r) :
+    RingInv (r.sendVal sch v) ∧ (r.sendVal sch v).abs = r.abs.sendVal sch v := by
+  cases v with
+  | byte b =>
+    obtain ⟨h1, h2⟩ := reserve_sim sch 1 r hi
+    obtain ⟨h3, h4⟩ := put_sim [b].toByteArray _ h1
+    exact ⟨h3, by simp only [Sender.sendVal, Sender.sendByte]; rw [← h2]; exact h4⟩
+  | u16 n => exact sendBE_sim sch 2 n r hi
+  | u32 n => exact sendBE_sim sch 4 n r hi
+  | data d =>
+    obtain ⟨h1, h2⟩ := sendBE_sim sch 4 d.size r hi
+    obtain ⟨h3, h4⟩ := sendDataLoop_sim sch d 0 _ h1
+    exact ⟨h3, by simp only [Sender.sendVal, Sender.sendData, Sender.sendU32]; rw [← h2]; exact h4⟩
+  | str d =>
+    obtain ⟨h1, h2⟩ := sendBE_sim sch 4 d.size r hi
+    obtain ⟨h3, h4⟩ := sendDataLoop_sim sch d 0 _ h1
+    exact ⟨h3, by simp only [Sender.sendVal, Sender.sendData, Sender.sendU32]; rw [← h2]; exact h4⟩
+  | label n => exact sendBE_sim sch 16 n r hi
+  | sizes l =>
+    simp only [Ring.sendVal, Sender.sendVal, Sender.sendSizes]
+    obtain ⟨h1, h2⟩ := sendBE_sim sch 4 l.length r hi
+    have h2' : (r.sendBE sch 4 l.length).abs = r.abs.sendU32 sch l.length := h2
+    rw [← h2']
+    generalize r.sendBE sch 4 l.length = a at h1
+    clear h2 h2'
+    induction l generalizing a with
+    | nil => exact ⟨h1, rfl⟩
+    | cons x xs ih =>
+      simp only [List.foldl_cons]
+      obtain ⟨g1, g2⟩ := sendBE_sim sch 4 x a h1
+      have g2' : (a.sendBE sch 4 x).abs = a.abs.sendU32 sch x := g2
+      rw [← g2']
+      exact ih _ g1
+
+theorem run_sim (sch : Sched) (ops : List Op) (r : Ring) (hi : RingInv r) :
+    RingInv (r.run sch ops) ∧ (r.run sch ops).abs = r.abs.run sch ops := by
+  induction ops generalizing r with
+  | nil => exact ⟨hi, rfl⟩
+  | cons o os ih =>
+    simp only [Ring.run, Sender.run, List.foldl_cons]
+    have h : RingInv (r.step sch o) ∧ (r.step sch o).abs = r.abs.step sch o := by
+      cases o with
+      | send v => exact sendVal_sim sch v r hi
+      | flush => exact flushS_sim sch r hi
+      | needSpace n => exact reserve_sim sch n r hi
+    obtain ⟨i1, i2⟩ := ih _ h.1
+    refine ⟨i1, ?_⟩
+    rw [← h.2]
+    exact i2
+
+theorem abs_init : Ring.init.abs = Sender.init := rfl
+
 /-! ## Receive half -/
 
 structure RInv (r : Recv) : Prop where
